@@ -253,8 +253,10 @@ class Gen:
         size = 0
         if ty in BLK_TYPES:
             size = r.choice([0, 1, 8, 16, 24, 4096, 2 ** 32 - 1]) if r.chance(1, 3) else r.below(200)
-            if self.want("blk-size-ge-2^32"):
-                size = r.choice([2 ** 32, 2 ** 32 + 5, 2 ** 40])
+            if self.want("blk-size-ge-2^32") or r.chance(1, 12):
+                size = r.choice([2 ** 32, 2 ** 32 + 5, 2 ** 40, 2 ** 63 - 1])
+            if self.want("blk-size-ge-2^63"):
+                size = r.choice([2 ** 63, 2 ** 64 - 1])
         return (ty, self.name(False), size)
 
     def mode_of_type(self, ty):
@@ -398,6 +400,8 @@ class Gen:
             fn["ends_jmp"] = True
         else:
             fn["body"].append(self.ret_insn(mod, fn))
+            if r.chance(1, 10):
+                fn["body"].append(("label", self.new_label(fn)))
         return fn
 
     # ---------------------------------------------------------------- data items
@@ -413,10 +417,8 @@ class Gen:
         else:
             ty = "p"
         n = r.below(6)
-        if ty == "p":
-            n = 0
-            if self.want("data-type-p"):
-                n = 1 + r.below(3)
+        if ty == "p" and self.want("data-type-p"):
+            n = 1 + r.below(3)
         els = []
         for _ in range(n):
             if ty in ("f", "d", "ld"):
@@ -1014,6 +1016,8 @@ class FreeForm:
                         pend = []
                         out += pre + ind + ins[0] + (self.ws(True) + self.sep().join(self.op(o) for o in ins[1])
                                                       if ins[1] else "") + self.eol()
+                    for l in pend:       # labels at the end of the body stand in front of endfunc
+                        out += l + self.ws() + ":" + (self.ws() if r.chance(1, 2) else "\n")
                     out += ind + "endfunc" + self.eol()
             out += self.ws(True) + "endmodule" + self.eol()
         if out.endswith(";") or not out.endswith("\n"):
